@@ -83,6 +83,11 @@ func c20Check(c c20Case, st *stats.Run) error {
 	// fixed files, made by the reference implementation
 	fixedPlain := hx.PRG(42, 70000)
 	fixed := refFile(p, specs, []byte("C20 fixed filekey"[:16]), 7, fixedPlain).Bytes()
+	// one small file per shared identity (each matches a different entry of the list)
+	var fixedEach [][]byte
+	for i, sp := range specs {
+		fixedEach = append(fixedEach, refFile(p, []hx.RecSpec{sp}, []byte("C20 each filekey"), uint64(20+i), fixedPlain[:1000]).Bytes())
+	}
 	if !c.Fresh {
 		// warm up: use every shared value once alone
 		if _, err := encryptLib(recs, []byte("warm"), nil, false); err != nil {
@@ -95,7 +100,7 @@ func c20Check(c c20Case, st *stats.Run) error {
 	nEnc, nDec := 0, 0
 	for _, g := range c.Goroutines {
 		for _, o := range g {
-			if o.Op == "dec" {
+			if o.Op == "dec" || o.Op == "dec-all" {
 				nDec++
 			} else {
 				nEnc++
@@ -138,6 +143,37 @@ func c20Check(c c20Case, st *stats.Run) error {
 					got, err, _ := decryptLib(file, hx.Delivery{Mode: "whole"}, []int{chunk}, false, id)
 					if err != nil || !bytes.Equal(got, plain) {
 						errs <- pbt.Failf("C20/concurrent-result-differs", "goroutine %d op %d: a file encrypted concurrently to the shared recipients %v does not decrypt with the shared identity: %v", gi, oi, c.Kinds, err)
+						return
+					}
+				case "dec-all":
+					// the whole shared identity slice, as in Decrypt(src, ids...)
+					got, err, _ := decryptLib(fixed, hx.Delivery{Mode: "whole"}, []int{chunk}, false, ids...)
+					if err != nil || !bytes.Equal(got, fixedPlain) {
+						errs <- pbt.Failf("C20/concurrent-result-differs", "goroutine %d op %d: Decrypt(file, sharedIdentities...) fails under concurrency: %v", gi, oi, err)
+						return
+					}
+					for k := range fixedEach {
+						got, err, _ := decryptLib(fixedEach[k], hx.Delivery{Mode: "whole"}, []int{chunk}, false, ids...)
+						if err != nil || !bytes.Equal(got, fixedPlain[:1000]) {
+							errs <- pbt.Failf("C20/concurrent-result-differs", "goroutine %d op %d: a file for shared identity %d does not decrypt with the shared identity list under concurrency: %v", gi, oi, k, err)
+							return
+						}
+					}
+				case "enc-close-twice":
+					plain := hx.PRG(uint64(gi*100+oi), o.Len)
+					var buf bytes.Buffer
+					w, err := age.Encrypt(&buf, recs...)
+					if err != nil {
+						errs <- pbt.Failf("C20/concurrent-result-differs", "Encrypt failed: %v", err)
+						return
+					}
+					w.Write(plain)
+					cerr := w.Close()
+					runtime.Gosched()
+					w.Close() // the common "defer w.Close()" after an explicit Close
+					got, derr, _ := decryptLib(buf.Bytes(), hx.Delivery{Mode: "whole"}, []int{chunk}, false, id)
+					if cerr != nil || derr != nil || !bytes.Equal(got, plain) {
+						errs <- pbt.Failf("C20/concurrent-result-differs", "goroutine %d op %d: encrypt (Close called twice) + decrypt round trip fails under concurrency: close %v, decrypt %v", gi, oi, cerr, derr)
 						return
 					}
 				case "dec":
@@ -189,7 +225,7 @@ func c20Gen(t *rapid.T) c20Case {
 	for i := 0; i < g; i++ {
 		var ops []c20Op
 		for j, n := 0, rapid.IntRange(1, 4).Draw(t, "nops"); j < n; j++ {
-			ops = append(ops, c20Op{Op: rapid.SampledFrom([]string{"enc", "dec", "wrap", "wrap"}).Draw(t, "op"), Len: rapid.SampledFrom([]int{0, 10, 1000, chunk, chunk + 5}).Draw(t, "len"), Yield: rapid.IntRange(0, 3).Draw(t, "yield")})
+			ops = append(ops, c20Op{Op: rapid.SampledFrom([]string{"enc", "dec", "wrap", "wrap", "dec-all", "enc-close-twice"}).Draw(t, "op"), Len: rapid.SampledFrom([]int{0, 10, 1000, chunk, chunk + 5}).Draw(t, "len"), Yield: rapid.IntRange(0, 3).Draw(t, "yield")})
 		}
 		c.Goroutines = append(c.Goroutines, ops)
 	}
@@ -207,10 +243,20 @@ func TestC20(t *testing.T) {
 			for rep := 0; rep < 3; rep++ {
 				var gs [][]c20Op
 				for i := 0; i < 16; i++ {
-					gs = append(gs, []c20Op{{Op: "wrap"}, {Op: "enc", Len: 100}, {Op: "dec"}})
+					gs = append(gs, []c20Op{{Op: "wrap"}, {Op: "enc", Len: 100}, {Op: "dec"}, {Op: "enc-close-twice", Len: 70000}})
 				}
 				yield(c20Case{Kinds: []string{k}, Goroutines: gs, Procs: 16, Fresh: true})
 			}
+		}
+	}, check)
+	// a shared list of identities, each file matching another entry
+	pbt.Each(s, "concurrent", func(yield func(c20Case)) {
+		for rep := 0; rep < 3; rep++ {
+			var gs [][]c20Op
+			for i := 0; i < 16; i++ {
+				gs = append(gs, []c20Op{{Op: "dec-all"}, {Op: "dec-all"}})
+			}
+			yield(c20Case{Kinds: []string{"x25519", "x25519", "ed25519", "rsa"}, Goroutines: gs, Procs: 16, Fresh: rep == 0})
 		}
 	}, check)
 	pbt.Rapid(s, "concurrent", s.N(200, 1500), c20Gen, check)
